@@ -419,6 +419,11 @@ class StdioClient:
             # FIXED: Create streams here in async context, not in __init__
             logger.debug("Creating memory streams in async context...")
 
+            # A client object may be entered again: the new connection has not
+            # negotiated anything yet, whatever the previous one had agreed on
+            self.batch_processor = BatchProcessor()
+            self._pending = {}
+
             # Global broadcast stream for notifications (id == None)
             self._notify_send, self.notifications = anyio.create_memory_object_stream(
                 100
